@@ -7,6 +7,7 @@ CONSTANTS
   Retry = TRUE
   Poison = {}
   Bad = {}
+  BadAfter = 0
   MaxKills = 1
   Refuse <- NoPairs
   MaxDyRaise = 1
